@@ -82,7 +82,7 @@ for cid in sorted(checks):
       "quick_cmd": f"./run.sh {cid} quick",
       "thorough_cmd": f"./run.sh {cid} thorough",
       "evidence_file": f"/verif/evidence/{cid}.json",
-      "replay_cmd_template": "./bin/rxv replay {path}",
+      "replay_cmd_template": "./run.sh replay {path}",
       "engine": c.get("eng","E-enum"),
       "level_claimed": {"category": c["cat"], "text": c["text"], "design_ref": "DESIGN.md section "+c["ref"]},
       "level_note": c["note"],
